@@ -134,6 +134,27 @@ def function_lines(rng, scale):
     return out
 
 
+def big_sort_lines(rng, scale):
+    """sort / sort_by / max_by / min_by on arrays of 17..70 elements with many equal keys: equal elements must keep their order (the library's
+    sort routines switch algorithm above 16 elements)"""
+    out = []
+    key = lambda k: ("CH", ("ID", k), [])
+    for _ in range(25 * scale):
+        n = rng.choice([15, 16, 17, 18, 24, 33, 40, 70])
+        strs = rng.random() < 0.4
+        kv = (lambda: rng.choice([b"a", b"b", b"c"])) if strs else (lambda: rng.randint(0, 3))
+        xs = [Obj([(b"id", i), (b"k", kv())]) for i in range(n)]
+        ns = [kv() for _ in range(n)]
+        doc = wire.render(Obj([(b"ns", ns), (b"xs", xs)]))
+        for e in (("CH", ("CALL", "sort_by", [("V", key(b"xs")), ("R", key(b"k"))]), []),
+                  ("CH", ("CALL", "sort_by", [("V", key(b"xs")), ("R", key(b"k"))]), [("SL", None, None, -1)]),
+                  ("CH", ("CALL", "max_by", [("V", key(b"xs")), ("R", key(b"k"))]), []),
+                  ("CH", ("CALL", "min_by", [("V", key(b"xs")), ("R", key(b"k"))]), []),
+                  ("CH", ("CALL", "sort", [("V", key(b"ns"))]), [])):
+            out.append(reg(e, "jm s %s | %s | %s" % (jmes.expr_text(rng, e).hex(), doc, jmes.tokens(e))))
+    return out
+
+
 def slice_lines(rng, scale):
     out = []
     vals = [None, 0, 1, 2, 3, 5, 6, -1, -2, -5, -6, -7, 100, -100, 2 ** 63 - 1, -2 ** 63]
@@ -170,6 +191,7 @@ def streams(ctx, rng, scale):
     ctx.correspond("expressions", HARNESS, gen_lines(rng, 1200 * scale), oracle, nontrivial, compare=lambda l, i, m: True)
     ctx.correspond("functions", HARNESS, function_lines(rng, scale), oracle, nontrivial, compare=lambda l, i, m: True)
     ctx.correspond("slices", HARNESS, slice_lines(rng, scale), oracle, nontrivial, compare=lambda l, i, m: True)
+    ctx.correspond("sorts-above-16", HARNESS, big_sort_lines(rng, scale), oracle, nontrivial, compare=lambda l, i, m: True)
 
 
 def run(ctx):
